@@ -219,6 +219,11 @@ impl Property for C11 {
             Some(LineIntersection::SinglePoint { is_proper: false, .. }) => "Improper",
             Some(LineIntersection::Collinear { .. }) => "Collinear",
         };
+        // the accessor agrees with the variant: proper only for a SinglePoint flagged so, never for an overlap
+        if let Some(g) = &got {
+            let want_flag = matches!(g, LineIntersection::SinglePoint { is_proper: true, .. });
+            obs.expect(g.is_proper() == want_flag, "LineIntersection::is_proper|disagrees-with-variant", || format!("{:?}; {}", g, ctx()));
+        }
         obs.cmp();
         match (&got, &want) {
             (None, Exact::None) => {}
